@@ -1,4 +1,5 @@
-(* XpcExtraModel.v — corollaries of the round trip, and the guards the compiler really applies to names. *)
+(* XpcExtraModel.v — corollaries of the round trip, and what the compiler checks on names, dots and digits in the two
+   variants of each of the three repairs (fixes/C02c). *)
 From Coq Require Import List NArith Bool Arith Lia.
 Import ListNotations.
 Require Import XV.XpAst XV.GenXpc XV.XpcLexDefs XV.XpcParseDefs XV.XpcPrintDefs XV.XpcPrintFacts XV.XpcPrintModel.
@@ -8,16 +9,17 @@ Lemma print_injective_m : forall e1 e2, canon e1 = true -> canon e2 = true ->
   S (idepth e1) <= gen_xpc_max_nesting -> S (idepth e2) <= gen_xpc_max_nesting -> pr e1 = pr e2 -> e1 = e2.
 Proof.
   intros e1 e2 C1 C2 D1 D2 E.
-  pose proof (parse_print_m (fun _ => None) e1 C1 D1) as P1.
-  pose proof (parse_print_m (fun _ => None) e2 C2 D2) as P2.
+  pose proof (parse_print_m flags_here (fun _ => None) e1 C1 D1) as P1.
+  pose proof (parse_print_m flags_here (fun _ => None) e2 C2 D2) as P2.
   rewrite E in P1. rewrite P1 in P2. inversion P2. reflexivity.
 Qed.
 
-(* the only test NodeTest() applies to an unprefixed name: its first character *)
-Lemma nodetest_name_guard_m : forall ns ts q n r,
-  p_nodetest ns ts = Ok (TName q (Some n), r) -> is_nodetest_tok n = true.
+(* what NodeTest() applies to an unprefixed name: its first character; in the repaired variant also isValidNCName *)
+Lemma nodetest_name_guard_m : forall fl ns ts q n r,
+  p_nodetest fl ns ts = Ok (TName q (Some n), r) ->
+  is_nodetest_tok n = true /\ (fx_name fl = true -> valid_ncname n = true).
 Proof.
-  intros ns ts q n r H. unfold p_nodetest in H.
+  intros fl ns ts q n r H. unfold p_nodetest in H.
   destruct (look_c ts ch_lparen 1).
   - destruct (ntype_of_name (cur_tok ts)) as [k|]; [|discriminate].
     destruct (expect ch_lparen (tl ts)) as [ts1| |]; try discriminate.
@@ -28,5 +30,54 @@ Proof.
   - match type of H with (match ?X with _ => _ end) = _ => destruct X as [[q0 ts1]| |] end; try discriminate.
     destruct (N.eqb (tokc ts1) ch_asterisk); [discriminate|].
     destruct (is_nodetest_tok (cur_tok ts1)) eqn:E; [|discriminate].
-    inversion H; subst. exact E.
+    destruct (fx_name fl && negb (valid_ncname (cur_tok ts1)))%bool eqn:E2; [discriminate|].
+    inversion H; subst. split; [exact E|]. intros F. rewrite F in E2. cbn [andb] in E2.
+    apply negb_false_iff in E2. exact E2.
+Qed.
+
+(* ---- repaired tokenizer: '.' and '..' are tokens of their own ---------------------------------------------------- *)
+Lemma step_idle_dot : forall fl nx prev acc, fx_dot fl = true ->
+  match nx with Some d => num_digit fl d = false | None => True end ->
+  step_idle fl ch_fullstop nx prev acc = Ok (acc, MDot).
+Proof.
+  intros fl nx prev acc H Hn. unfold step_idle.
+  change (N.eqb ch_fullstop ch_quote || N.eqb ch_fullstop ch_apos)%bool with false.
+  change (is_tok_ws ch_fullstop) with false.
+  change (N.eqb ch_fullstop ch_hyphen || is_delim ch_fullstop)%bool with false.
+  change (N.eqb ch_fullstop ch_colon) with false. cbv iota.
+  rewrite H, N.eqb_refl. destruct nx as [d|]; [rewrite Hn|]; reflexivity.
+Qed.
+
+Lemma dot_token_m : forall fl ns s prev acc, fx_dot fl = true ->
+  match s with [] => True | c :: _ => num_digit fl c = false /\ c <> ch_fullstop end ->
+  lex fl ns (ch_fullstop :: s) prev acc MIdle = lex fl ns s (ch_fullstop :: prev) ([ch_fullstop] :: acc) MIdle.
+Proof.
+  intros fl ns s prev acc H Hs. destruct s as [|c r].
+  - cbn [lex hd_error lex_step]. rewrite step_idle_dot; auto.
+  - destruct Hs as [Hd Hc]. cbn [lex hd_error]. cbn [lex_step]. rewrite step_idle_dot; auto.
+    cbn [lex_step]. apply N.eqb_neq in Hc. rewrite Hc. reflexivity.
+Qed.
+
+Lemma num_digit_dot : forall fl, num_digit fl ch_fullstop = false.
+Proof. intros [f1 f2 f3]. destruct f3; reflexivity. Qed.
+
+Lemma dotdot_token_m : forall fl ns s prev acc, fx_dot fl = true ->
+  lex fl ns (ch_fullstop :: ch_fullstop :: s) prev acc MIdle =
+  lex fl ns s (ch_fullstop :: ch_fullstop :: prev) ([ch_fullstop; ch_fullstop] :: acc) MIdle.
+Proof.
+  intros fl ns s prev acc H. cbn [lex hd_error]. cbn [lex_step]. rewrite step_idle_dot; auto; try apply num_digit_dot.
+Qed.
+
+(* ---- repaired number test: a number token starts with an ASCII digit, or '.' and an ASCII digit --------------------- *)
+Lemma number_ascii_m : forall fl ts, fx_digit fl = true -> primary_kind fl ts = PkNumber -> num_tok_ok (cur_tok ts) = true.
+Proof.
+  intros fl ts H K. unfold primary_kind in K. cbv zeta in K.
+  destruct (N.eqb (tokc ts) ch_apos || N.eqb (tokc ts) ch_quote)%bool; [discriminate|].
+  destruct (N.eqb (tokc ts) ch_dollar); [discriminate|].
+  destruct (N.eqb (tokc ts) ch_lparen); [discriminate|].
+  match type of K with (if ?X then _ else _) = _ => destruct X eqn:E end.
+  2:{ destruct (look_c ts ch_lparen 1 || look_c ts ch_colon 1 && look_c ts ch_lparen 3)%bool; discriminate. }
+  unfold num_digit in E. rewrite H in E.
+  destruct ts as [|[|c t] r]; cbn [tokc cur_tok] in *; try (cbn in E; discriminate).
+  cbn [num_tok_ok]. rewrite orb_comm. destruct t as [|c1 t1]; [rewrite andb_false_r in *|]; exact E.
 Qed.
